@@ -4,10 +4,12 @@ import (
 	"bufio"
 	"bytes"
 	"encoding/binary"
+	"errors"
 	"fmt"
 	"github.com/jhalter/mobius/hotline"
 	"golang.org/x/text/encoding/charmap"
 	"io"
+	"io/fs"
 	"math"
 	"math/big"
 	"os"
@@ -1368,6 +1370,14 @@ func HandleDownloadFile(cc *hotline.ClientConn, t *hotline.Transaction) (res []h
 
 	if isFileRoot(cc, fullFilePath) {
 		return cc.NewErrReply(t, "Cannot download the file root as a file.")
+	}
+
+	// Only a complete file can be downloaded.  A partial upload is listed under its final name, but the transfer could
+	// only send its header followed by nothing: refuse the request instead of granting it.
+	if _, err := cc.Server.FS.Stat(fullFilePath); errors.Is(err, fs.ErrNotExist) {
+		if _, err := cc.Server.FS.Stat(fullFilePath + hotline.IncompleteFileSuffix); err == nil {
+			return cc.NewErrReply(t, "Cannot download "+string(fileName)+" because its upload is not complete.")
+		}
 	}
 
 	hlFile, err := hotline.NewFileWrapper(cc.Server.FS, fullFilePath, dataOffset)
